@@ -1,7 +1,9 @@
 #!/bin/bash
-# Cross-check of the hash_to_field samples dumped by the run against a Python (hashlib + int) re-implementation.
-# A disagreement cannot be attributed (the Rust run has already found arkworks == sha2/BigUint reference), so it is
-# reported as inconclusive (exit 3 -> ./check prints INCONCLUSIVE), never as a violation.
+# 1. Cross-check of the hash_to_field samples dumped by the run against a Python (hashlib + int) re-implementation.
+#    A disagreement cannot be attributed (the Rust run has already found arkworks == sha2/BigUint reference), so it is
+#    reported as inconclusive (exit 3 -> ./check prints INCONCLUSIVE), never as a violation.
+# 2. The same relations in the profile of an ordinary release build (no debug assertions): tools/variant_stage.sh.
 ROOT="${VERIF_ROOT:-/verif}"
 HERE="$(cd "$(dirname "$0")" && pwd)"
-/usr/bin/python3 "$HERE/rfc9380_ref.py" "$ROOT/harness/target/c13-dump"
+/usr/bin/python3 "$HERE/rfc9380_ref.py" "$ROOT/harness/target/c13-dump" || exit $?
+exec "$ROOT/tools/variant_stage.sh" C13 "${1:-quick}" rel
